@@ -48,7 +48,8 @@ Lemma wf_parts :
   forallb wf_node (c_fs c) = true /\
   (model_sys c <> RDiverge).
 Proof.
-  unfold wf in Hwf. repeat (apply andb_true_iff in Hwf as [Hwf ?]).
+  unfold wf in Hwf. apply andb_true_iff in Hwf as [_ Hwf]. unfold wf_base in Hwf.
+  repeat (apply andb_true_iff in Hwf as [Hwf ?]).
   repeat split; auto. intro E. rewrite E in H. discriminate.
 Qed.
 
